@@ -464,6 +464,11 @@ def evidence(tier):
                       'not/and/or, undefined references), every reference '
                       'site inlined in turn',
         },
+        'bounds_more': {'redefine': 'rule:x under 5 placements; x undefined / '
+                        'raising / defined at a first evaluation, then '
+                        '(re)defined in place in 3 ways, evaluated again',
+                        'slot options': 'incl. recording checks related by '
+                        'inheritance with different call signatures'},
         'symbols': ['slot.<rule>.<i>: Int (which check sits in the slot)',
                     'creds.<role>: Bool', 'leaf.rec4.a, leaf.rec3.b: Bool',
                     'site: Int (which reference is inlined)'],
